@@ -5,7 +5,7 @@ from gen import conn as G
 from gen.common import rng_for
 import check as C
 
-KINDS = ["echo", "echo", "noread", "p", "notfound", "close", "err", "errclose", "bigr", "reqclose", "reqnoclose"]
+KINDS = ["echo", "echo", "noread", "p", "notfound", "close", "err", "errclose", "bigr", "reqclose", "reqnoclose", "silent", "errkind"]
 MODES = ["serve", "threaded", "epoll"]
 
 
@@ -47,6 +47,23 @@ def gen_plans(seed, tier):
     return plans
 
 
+def fd_reuse_lines(n):
+    """epoll mode: a connection ends (its teardown hook closes the socket and then works for a while) while the next
+    connection is accepted — possibly under the descriptor number just freed — and sends its request afterwards.
+    returns (case lines, expected per-connection transcripts)"""
+    p1 = b"GET /p/1/2 HTTP/1.1\r\n\r\n"
+    pc = b"GET /close HTTP/1.1\r\n\r\n"
+    r200 = "R200:0:" + hx(b"1,2")
+    conns = [("P", "s:%s,r,e" % hx(pc), ["R200:1:" + hx(b"bye"), "EOF"]),
+             ("P", "w,s:%s,r,s:%s,r,c,e" % (hx(p1), hx(p1)), [r200, r200, "EOF"]),
+             ("P", "s:%s,r,e" % hx(pc), ["R200:1:" + hx(b"bye"), "EOF"]),
+             ("P", "w,s:%s,r,c,e" % hx(p1), [r200, "EOF"]),
+             ("S", "e", ["EOF"])]
+    plan = "/".join("%s:%s" % (d, sc) for d, sc, _ in conns)
+    want = [",".join(e) for _, _, e in conns]
+    return ["SERVE mode=epoll threads=2 slowtd=1 plan=%s" % plan] * n, [want] * n
+
+
 def expected_hooks(conns):
     out = []
     for d, script, exp, meta in conns:
@@ -57,9 +74,9 @@ def expected_hooks(conns):
         served = 0
         for k, e in zip(meta["kinds"], exp):
             served += 1
-            if e == "EOF" or k in ("close", "reqclose", "err", "errclose"):
+            if e == "EOF" or k in ("close", "reqclose", "err", "errclose", "errkind", "silent"):
                 break
-        err = bool({"err", "errclose"} & set(meta["kinds"][:served]))
+        err = bool({"err", "errclose", "errkind"} & set(meta["kinds"][:served]))
         out.append("s1p%dt1%s" % (served, "e" if err else "o"))
     return out
 
@@ -130,7 +147,9 @@ def known_c16(o, ctx, k):
         d[kk] = v
     ports = [x for x in d.get("ports", "").split(",") if x]
     closes = dict(x.split(":") for x in d.get("closes", "").split(",") if ":" in x)
-    return d.get("returned") == "1" and bool(ports) and closes.get(ports[0], "0") == "0"
+    # (whether the serve call itself has returned by then depends on K14: a worker pinned in a read on the idle connection
+    # delays the pool shutdown by its read time-out; the finding is the abandoned socket)
+    return bool(ports) and closes.get(ports[0], "0") == "0"
 
 
 RULE = ("SERVE plans: 25 (quick) / 600 (thorough) plans of 1-4 sequential connections with per-connection setup decisions {Proceed, Drop} followed by a StopAccepting connection, each proceeded connection running a "
